@@ -1,64 +1,27 @@
-"""Translator plug-in (property C14): `str.lower()` of the *running* Python, as a table.
+"""Translator plug-in (C20): `str.lower()` of the *running* Python, per code point -> Gen/PyLower.lean.
 
-`Color.parse` and `Style.parse` lower-case their input before matching keywords, so a non-ASCII
-character whose lower-case form is ASCII ("K" KELVIN SIGN -> "k") changes which branch is taken.
-
-* `pyLowerRuns`    - (lo, hi, target): for lo <= cp <= hi, `chr(cp).lower() == chr(target + cp - lo)`
-                     (one character); code points in no run and not in `pyLowerSpecial` are unchanged;
-* `pyLowerSpecial` - (cp, [code points]): characters whose lower-case form has several characters;
-* `pyLowerContext` - characters whose lower-case form depends on their neighbours (GREEK CAPITAL SIGMA:
-                     final-sigma rule); the driver answers `unmodelled` for strings containing one.
-
-The plug-in checks that `str.lower()` is character-wise outside `pyLowerContext` (on a sample of
-two-character strings around every mapped character) - a fact about CPython, not about the repository
-(trusted base).
+A fact about the runtime (configparser's default `optionxform` is `str.lower`), not about /repo.  Listed are the
+code points c >= 128 with chr(c).lower() != chr(c); U+03A3 (capital sigma) is context sensitive in CPython
+(final-sigma rule) and is handled by the model as `unmodelled`.  The table is re-checked against `str.lower`
+on every code point by the C20 correspondence run.
 """
-
-CONTEXT = [0x3A3]
 
 
 def generate(api):
-    single = {}
-    special = []
-    for cp in range(0x110000):
-        if 0xD800 <= cp <= 0xDFFF or cp in CONTEXT:
+    rows = []
+    for cp in range(128, 0x110000):
+        if 0xD800 <= cp <= 0xDFFF:
             continue
-        c = chr(cp)
-        l = c.lower()
-        if l == c:
-            continue
-        if len(l) == 1:
-            single[cp] = ord(l)
-        else:
-            special.append((cp, [ord(x) for x in l]))
-    # character-wise outside the context-dependent characters
-    for cp in list(single)[::7] + [cp for cp, _ in special]:
-        c = chr(cp)
-        for a, b in (("a", "b"), ("A", " "), ("", "Z"), ("1", "")):
-            if (a + c + b).lower() != a.lower() + c.lower() + b.lower():
-                raise ValueError(f"str.lower() is not character-wise at U+{cp:04X}")
-    for cp in CONTEXT:
-        if len(chr(cp).lower()) != 1 or ord(chr(cp).lower()) < 128:
-            raise ValueError(f"context-dependent U+{cp:04X} lowers to ASCII or to several characters")
-    runs = []
-    for cp in sorted(single):
-        if runs and runs[-1][1] == cp - 1 and runs[-1][2] + (cp - runs[-1][0]) == single[cp]:
-            runs[-1][1] = cp
-        else:
-            runs.append([cp, cp, single[cp]])
-    text = (
-        "-- GENERATED by harness/gen/py_lower.py from the running Python (str.lower); do not edit.\n"
-        "namespace RichModel.Gen\n\n"
-        "/-- (lo, hi, target): `chr(cp).lower() = chr(target + cp - lo)` on lo..hi -/\n"
-        "def pyLowerRuns : List (Nat × Nat × Nat) := [\n  "
-        + ", ".join(f"({a}, {b}, {t})" for a, b, t in runs)
-        + "\n]\n\n"
-        "/-- characters whose lower-case form has more than one character -/\n"
-        "def pyLowerSpecial : List (Nat × List Nat) := [\n  "
-        + ", ".join(f"({cp}, [{', '.join(map(str, l))}])" for cp, l in special)
-        + "\n]\n\n"
-        "/-- characters whose lower-case form depends on the context (not modelled) -/\n"
-        f"def pyLowerContext : List Nat := [{', '.join(map(str, CONTEXT))}]\n\n"
-        "end RichModel.Gen\n"
-    )
-    return {"PyLower.lean": text}
+        low = chr(cp).lower()
+        if low != chr(cp):
+            rows.append((cp, [ord(c) for c in low]))
+    out = [api.HEADER.format(src="the running Python: str.lower() per code point >= 128"), "namespace RichModel.Gen\n\n"]
+    # chunks: one literal of 1400 rows exceeds the elaborator's recursion depth; lists (not arrays) keep kernel evaluation cheap
+    chunks = [rows[i:i + 200] for i in range(0, len(rows), 200)] or [[]]
+    for k, ch in enumerate(chunks):
+        out.append("def pyLower%d : List (Nat × List Nat) := [\n" % k)
+        out.append(",\n".join("  (%d, [%s])" % (cp, ", ".join(map(str, low))) for cp, low in ch))
+        out.append("\n]\n\n")
+    out.append("def pyLower : List (Nat × List Nat) := " + " ++ ".join("pyLower%d" % k for k in range(len(chunks))) + "\n")
+    out.append("\nend RichModel.Gen\n")
+    return {"PyLower.lean": "".join(out)}
